@@ -89,6 +89,9 @@ pub enum Wrap {
     EitherL,
     EitherR,
     Cloned,
+    /// an extension parser whose parse() runs `inp.parse(&inner)` and whose check() runs `inp.check(&inner)` (generated only
+    /// in classes with `ext`: on failure Ext re-homes the inner error at its own start, which the reference does not model)
+    ExtOf,
 }
 
 #[derive(Clone, Debug, PartialEq, Eq, Hash, Serialize, Deserialize)]
